@@ -118,7 +118,7 @@ class Env:
         for k, vj in vals.items():
             self.box[k] = val_py(vj)
         self.box["L"] = [3, 5, 7, 11]
-        self.box["D"] = {"p": 2, "q": 9, 1: 4, "k'": 6}
+        self.box["D"] = {"p": 2, "q": 9, 1: 4, "k'": 6, 2 ** 61: 8}      # hash(2**61) == hash(1)
         o = Obj()
         o.u, o.w = 4, 2.5
         self.box["o"] = o
@@ -539,13 +539,25 @@ def run_case(case, fail, stats):
             res = outcome(lambda: m2.load(env.m.dump()))
         else:
             holder = {"in": copy.deepcopy(env.box)}
-            h2 = m2.ref(holder, case.get("label2", "h"))
-            m2.ref(dict(FUNCS), "f")
+            if case.get("shadow"):
+                # the destination's container carries the SAME label as the source and holds, one level up, locations
+                # of the same names with other values; the targets are already defined there by expressions that
+                # print exactly like the source's text but read the outer locations
+                for k0, v0 in copy.deepcopy(env.box).items():
+                    holder[k0] = (v0 + 100) if isinstance(v0, (int, float)) and not isinstance(v0, bool) else v0
+            h2 = m2.ref(holder, "r" if case.get("shadow") else case.get("label2", "h"))
+            f2 = m2.ref(dict(FUNCS), "f")
             box2 = holder["in"]
             r2 = h2["in"]
             pre = case.get("preexisting")
             if pre:
                 r2[pre[0]] = r2[pre[1]] * 1
+            if case.get("shadow"):
+                env3 = Env.__new__(Env)
+                env3.__dict__.update(env.__dict__)
+                env3.m, env3.r, env3.box, env3.f = m2, h2, holder, f2
+                for i, t in enumerate(case["defs"]):
+                    outcome(lambda: r2.__setitem__(case["targets"][i], env3.build(t)))
             res = outcome(lambda: m2.copy_expr_from(env.m, "r", {env.m.containers["r"]: r2},
                                                     overwrite=case.get("overwrite", True)))
         if res[0] != "ok":
@@ -644,7 +656,10 @@ def py_tokens(text):
                 except ValueError:
                     return None
             elif tok.type == tokenize.STRING:
-                out.append(["str", ast.literal_eval(tok.string)])
+                lit = ast.literal_eval(tok.string)
+                if not isinstance(lit, str):
+                    return None          # a bytes / prefixed literal: not something the printer may emit
+                out.append(["str", lit])
             elif tok.type == tokenize.OP:
                 out.append(["op", tok.string])
     except Exception:
@@ -859,6 +874,11 @@ def cases_c05(rng, n):
               ["call", "fpow", [["bin", "mul", ["un", "neg", ["litexpr", {"int": 3}]], ["ref", "v1"]]], []],
               ["call", "fpow", [["bin", "mul", ["root"], ["ref", "v1"]]], []],
               ["call", "fadd", [["ref", "v0"]], [["y", ["bin", "mul", ["root"], ["ref", "v1"]]]]],
+              ["bin", "sub", ["item", ["ref", "L"], ["lit", {"int": -1}]], ["item", ["ref", "L"], ["lit", {"int": -2}]]],
+              ["bin", "add", ["bin", "mul", ["lit", {"int": 2}], ["item", ["ref", "L"], ["lit", {"int": -1}]]],
+               ["bin", "mul", ["lit", {"int": 2}], ["item", ["ref", "L"], ["lit", {"int": -2}]]]],
+              ["bin", "mul", ["item", ["ref", "D"], ["lit", {"int": 1}]], ["item", ["ref", "D"], ["lit", {"int": 1 + 2 ** 61 - 1}]]],
+              ["bin", "sub", ["ref", "v1"], ["ref", "v1"]], ["bin", "mul", ["ref", "v1"], ["ref", "v1"]],
               ["un", "neg", ["ref", "v1"]], ["un", "neg", ["root"]], ["un", "pos", ["root"]],
               ["bin", "add", ["root"], ["lit", {"int": 1}]], ["builtin", "abs", ["root"], []]]:
         yield {"kind": "deps", "vals": {"v0": {"float": (12.345).hex()}, "v1": {"int": 1}, "v2": {"int": 5}, "v3": {"int": 2}},
@@ -982,6 +1002,9 @@ def cases_c11(rng, n):
            "preexisting": ["out", "v3"], "overwrite": False, "follow": [["v0", {"int": 10}]]}
     yield {"kind": "copyfrom", "vals": tricky, "targets": ["out"], "defs": [["bin", "add", ["ref", "v0"], ["ref", "v1"]]],
            "preexisting": ["out", "v3"], "overwrite": True, "follow": [["v0", {"int": 10}]]}
+    yield {"kind": "copyfrom", "vals": tricky, "targets": ["out", "o2"], "shadow": True,
+           "defs": [["bin", "add", ["ref", "v0"], ["ref", "v1"]], ["bin", "mul", ["ref", "v2"], ["lit", {"int": 3}]]],
+           "follow": [["v0", {"int": 10}], ["v2", {"int": -1}]]}
     for i in range(max(4, n // 20)):
         vals = gen_vals(rng, ["int", "float"])
         defs = []
@@ -989,9 +1012,12 @@ def cases_c11(rng, n):
             t = gen_term(rng, rng.randint(1, 3), PRINT_OPS)
             if "complex" not in json.dumps(t) and "attr" not in json.dumps(t):
                 defs.append(t)
-        yield {"kind": rng.choice(["dumpload", "copyfrom"]), "vals": vals, "defs": defs,
-               "targets": [rng.choice(["out", "r_out", "a r", "k['r']", "o2"]) + str(j) for j in range(len(defs))],
-               "follow": [[rng.choice(NAMES), gen_val(rng, rng.choice(["int", "float"]))] for _ in range(2)]}
+        c = {"kind": rng.choice(["dumpload", "copyfrom"]), "vals": vals, "defs": defs,
+             "targets": [rng.choice(["out", "r_out", "a r", "k['r']", "o2"]) + str(j) for j in range(len(defs))],
+             "follow": [[rng.choice(NAMES), gen_val(rng, rng.choice(["int", "float"]))] for _ in range(2)]}
+        if c["kind"] == "copyfrom" and rng.random() < 0.4:
+            c["shadow"] = True
+        yield c
     k = 0
     while k < n:
         vals = gen_vals(rng, ["int", "float"])
